@@ -21,10 +21,17 @@ import (
 // position in the connection's publish order and applies every later event of that resource holds what a
 // fresh get returns at the end; one reply per request; no panic, no deadlock.
 func init() {
-	for _, kind := range []string{"mock", "badger-prefix"} {
+	for _, kind := range []string{"mock", "badger-prefix", "2badger-prefix"} {
 		for _, typ := range []string{"model", "collection"} {
 			kind, typ := kind, typ
-			reg(&Scenario{Name: "SH1-" + kind + "-" + typ, Make: func(cfg Cfg) (func(), *Spec) {
+			// SH2: two foreign writers, one update each on different ids, no fetching client: a small program whose
+			// two change handlers overlap within one preemption (race build: state shared between them)
+			name, two := "SH1-"+kind+"-"+typ, false
+			if kind[0] == '2' {
+				kind = kind[1:]
+				name, two = "SH2-"+kind+"-"+typ, true
+			}
+			reg(&Scenario{Name: name, Make: func(cfg Cfg) (func(), *Spec) {
 				sp := &Spec{Closes: -1, StoreHandler: true}
 				val := func(n int) interface{} {
 					if typ == "model" {
@@ -70,11 +77,22 @@ func init() {
 						vsched.Note(Mon, fmt.Sprintf("mutated %s %d err=%v", id, n, err))
 					}
 					mut("1", 1)
+					mut("2", 1)
 					vsched.AwaitQuiescence()
 					done := make(chan struct{}, 4)
+					if two {
+						spawn("A", done, func() { mut("1", 3) })
+						spawn("C", done, func() { mut("2", 3) })
+						join(done, 2)
+						vsched.AwaitQuiescence()
+						vsched.Emit(Mon, "final")
+						w.Req("get.t.m.1", "R9")
+						vsched.AwaitQuiescence()
+						return
+					}
 					spawn("A", done, func() { mut("1", 2); mut("1", 3) })
 					spawn("B", done, func() { w.Req("get.t.m.1", "R1") })
-					spawn("C", done, func() { mut("2", 1) })
+					spawn("C", done, func() { mut("2", 3) }) // an update of another id: its change handler runs beside A's
 					join(done, 3)
 					vsched.AwaitQuiescence()
 					vsched.Emit(Mon, "final")
@@ -92,9 +110,13 @@ func JudgeStoreHandler(r *vsched.Result) []string {
 	add := func(prop, format string, a ...any) { out = append(out, prop+": "+fmt.Sprintf(format, a...)) }
 	var cache, fresh *ref.Cache
 	replies := map[string]int{}
+	sentR1 := false
 	var applied []string
 	for _, e := range r.Events {
 		f := strings.SplitN(e.Text, " ", 3)
+		if strings.HasPrefix(e.Text, "inject get.t.m.1 reply=R1") {
+			sentR1 = true
+		}
 		if f[0] != "pub" || len(f) < 3 {
 			continue
 		}
@@ -142,6 +164,9 @@ func JudgeStoreHandler(r *vsched.Result) []string {
 		return out
 	}
 	for _, id := range []string{"R1", "R9"} {
+		if id == "R1" && !sentR1 {
+			continue
+		}
 		if replies[id] != 1 {
 			add("C04", "request %s got %d responses", id, replies[id])
 		}
